@@ -20,7 +20,7 @@ pub fn def() -> CheckDef {
     CheckDef {
         id: "C34",
         level: "fault_enumeration",
-        configs: &["write-dataset", "write-file", "write-deflated", "read-dataset", "read-file", "pdu-write", "pdu-read", "assoc-requestor-sync", "assoc-acceptor-sync", "assoc-requestor-async", "assoc-acceptor-async"],
+        configs: &["write-dataset", "write-file", "write-deflated", "read-dataset", "read-file", "pdu-write", "pdu-read", "assoc-requestor-sync", "assoc-acceptor-sync", "assoc-requestor-async", "assoc-acceptor-async", "write-to-file"],
         quick_runs: 22_000,
         thorough_runs: 1_000_000,
         run,
@@ -38,11 +38,14 @@ pub fn def() -> CheckDef {
                exactly k bytes sent (or received) by the real side, for a window of 8 consecutive offsets k per run (half of \
                the windows start after the association PDU; all offsets are reached across runs); every operation must return \
                Err, or Ok with its effect complete on the wire (establish: both association PDUs exchanged; send: the PDU \
-               completely accepted by the socket; receive: the peer's next PDU completely received; release: reply received)",
-        real: &["InMemDicomObject::write_dataset_with_ts(_options)", "FileDicomObject::write_all / write_dataset / write_meta", "deflate adapter", "read_dataset_with_ts, OpenFileOptions::from_reader, FileMetaTable::from_reader", "write_pdu, PDataWriter (write/finish), read_pdu_from_wire, PDataReader", "assoc-*: Client/Server(Async)Association establish, send, receive, release, abort on real std/tokio TcpStream values"],
-        stub: &["failing sink/source (SimSink/SimSource with Fault)", "reference = the same operation on a healthy seam", "assoc-*: simulated TCP with a deterministic loss-of-connection offset; scripted peer"],
+               completely accepted by the socket; receive: the peer's next PDU completely received; release: reply received). \
+               write-to-file: FileDicomObject::write_to_file on a real file whose write() calls are interposed: the disk accepts \
+               exactly k bytes for every (or sampled) k and then fails with ENOSPC/EIO/EDQUOT once or persistently, or EINTR \
+               once, optionally after cutting the crossing write short; Err, or Ok with the stored file equal to the reference",
+        real: &["InMemDicomObject::write_dataset_with_ts(_options)", "FileDicomObject::write_all / write_dataset / write_meta", "FileDicomObject::write_to_file on a real file (tmpfs sandbox) through std::fs::File and BufWriter", "deflate adapter", "read_dataset_with_ts, OpenFileOptions::from_reader, FileMetaTable::from_reader", "write_pdu, PDataWriter (write/finish), read_pdu_from_wire, PDataReader", "assoc-*: Client/Server(Async)Association establish, send, receive, release, abort on real std/tokio TcpStream values"],
+        stub: &["failing sink/source (SimSink/SimSource with Fault)", "write-to-file: the disk, as the interposed libc write(): accepts exactly k bytes, optionally cuts the crossing write short, then fails with ENOSPC / EIO / EDQUOT (once or persistently) or EINTR (once)", "reference = the same operation on a healthy seam", "assoc-*: simulated TCP with a deterministic loss-of-connection offset; scripted peer"],
         assumptions: &["Interrupted and UnexpectedEof are not used as the injected failure (the first must be retried by contract, the second is dicom-rs' documented graceful end of data)", "association level: the failure is loss of the connection (ECONNRESET/EPIPE) at a byte offset; other errno values are injected by C30's random faults"],
-        required_probes: &["fault-positions-exhaustive", "fault-positions-sampled", "ok-with-complete-output", "err-reported", "fault-in-drop-window", "assoc-cut-sent-offset", "assoc-cut-received-offset", "assoc-established-under-cut", "assoc-establish-failed-under-cut", "assoc-complete-despite-cut", "assoc-error-reported"],
+        required_probes: &["fault-positions-exhaustive", "fault-positions-sampled", "ok-with-complete-output", "err-reported", "fault-in-drop-window", "assoc-cut-sent-offset", "assoc-cut-received-offset", "assoc-established-under-cut", "assoc-establish-failed-under-cut", "assoc-complete-despite-cut", "assoc-error-reported", "disk-fault-position", "disk-eintr-retried"],
         net: false,
     }
 }
@@ -473,6 +476,87 @@ fn run(cfg: usize, w: &mut Tape, env: &EnvRef) -> RunResult {
         4 => run_read_file(w, env),
         5 => run_pdu_write(w, env),
         6 => run_pdu_read(w, env),
+        11 => run_write_to_file(w, env),
         n => crate::checks::c30::run_assoc_faults(n - 7, w, env),
     }
+}
+
+/// Path-based writer under disk faults (engine: the libc `write` seam of simdisk): the file system accepts
+/// exactly k bytes and then fails (or cuts the crossing write short first), for every k.
+fn run_write_to_file(w: &mut Tape, env: &EnvRef) -> RunResult {
+    use crate::simdisk::{self, Plan};
+    let syn = [Syntax::ImplicitLE, Syntax::ExplicitLE, Syntax::ExplicitBE][w.below(3) as usize];
+    let model = small_model(w, syn);
+    let obj = build_object(&model, syn);
+    let meta = FileMetaTableBuilder::new()
+        .media_storage_sop_class_uid("1.2.840.10008.5.1.4.1.1.7")
+        .media_storage_sop_instance_uid("1.2.3.4.5")
+        .transfer_syntax(syn.uid())
+        .build()
+        .map_err(harness)?;
+    let file = obj.with_exact_meta(meta);
+    let who = format!("write_to_file:{}", syn.name());
+    let dir = crate::framework::sandbox_dir().join("c34files");
+    std::fs::create_dir_all(&dir).map_err(harness)?;
+    let path = dir.join("out.dcm");
+    let _ = std::fs::remove_file(&path);
+    if let Err(e) = file.write_to_file(&path) {
+        fail!("healthy-write-succeeds", format!("c34:{}:healthy-failed", who), "write_to_file failed on a healthy disk: {}", e);
+    }
+    let reference = std::fs::read(&path).map_err(harness)?;
+    // the same bytes as the Write-based twin
+    let mut twin = Vec::new();
+    file.write_all(&mut twin).map_err(harness)?;
+    check!(twin == reference, "healthy-write-succeeds", format!("c34:{}:differs-from-write_all", who), "write_to_file stored {} bytes, write_all produces {}", reference.len(), twin.len());
+    let (errno, ename) = [(libc::ENOSPC, "ENOSPC"), (libc::EIO, "EIO"), (libc::EDQUOT, "EDQUOT"), (libc::EINTR, "EINTR")][w.below(4) as usize];
+    let short = w.chance(1, 2);
+    // EINTR is transient by nature
+    let persistent = errno != libc::EINTR && w.chance(1, 2);
+    let pos = positions(w, env, reference.len());
+    env.ev("workload", reference.len() as u64, pos.len() as u64);
+    for k in pos {
+        let _ = std::fs::remove_file(&path);
+        simdisk::arm(Plan { fail_at: k as u64, errno, short, persistent });
+        let r = file.write_to_file(&path);
+        let rep = simdisk::disarm();
+        env.probe("fault-position");
+        env.probe("disk-fault-position");
+        if rep.fired > 0 {
+            env.with(|e| e.obs.fault(ename));
+        }
+        if rep.short_writes > 0 {
+            env.with(|e| e.obs.fault("short-disk-write"));
+        }
+        match r {
+            Err(_) => env.probe("err-reported"),
+            Ok(()) => {
+                let stored = std::fs::read(&path).unwrap_or_default();
+                if stored == reference {
+                    env.probe("ok-with-complete-output");
+                    if errno == libc::EINTR && rep.fired > 0 {
+                        env.probe("disk-eintr-retried");
+                    }
+                    continue;
+                }
+                check!(rep.fired > 0 || rep.short_writes > 0, "failure-reported", format!("c34:{}:short-without-fault", who), "Ok with {} of {} bytes stored although no disk failure was injected", stored.len(), reference.len());
+                if reference.len() - k <= 8192 {
+                    env.probe("fault-in-drop-window");
+                }
+                fail!(
+                    "failure-reported",
+                    format!("c34:{}:ok-with-incomplete-output", who),
+                    "the disk failed ({}, {}{}) after accepting {} of {} bytes but write_to_file returned Ok; the file holds {} bytes [{}]",
+                    ename,
+                    if persistent { "persistently" } else { "once" },
+                    if short { ", crossing write cut short" } else { "" },
+                    k,
+                    reference.len(),
+                    stored.len(),
+                    who
+                );
+            }
+        }
+    }
+    let _ = std::fs::remove_file(&path);
+    Ok(())
 }
